@@ -77,10 +77,9 @@ func formatOK(name, s string) Verdict {
 			zh, _ := strconv.Atoi(m[9])
 			zm, _ := strconv.Atoi(m[10])
 			if zh > 23 || zm > 59 {
-				if zh == 24 {
-					return Unspecified
-				}
-				return Reject
+				// zone-offset range checks are the Go standard library's (they
+				// changed between Go releases): treated as environment
+				return Unspecified
 			}
 		}
 		return Accept
